@@ -96,6 +96,23 @@ def rule_r2(p, res):
     stores = self_attr_stores(f.node)
     mean = [(s, v) for a, s, v in stores if a == "mean_vector"]
     cnt = [(s, v) for a, s, v in stores if a == "n_samples"]
+    if mean and not cnt:
+        # the count is not advanced in the shared helper: then every class's own increment() must advance it
+        from ..calls import reachable_funcs
+        base = p.cls("GMRFVectorModel")
+        bad = 0
+        for k_ in p.descendants(base):
+            inc_ = p.lookup(k_, "increment")
+            if inc_ is None:
+                continue
+            reach = reachable_funcs(p, inc_, k_)
+            upd = [fn for (fn, c_) in reach if any(a_ == "n_samples" for a_, s_, v_ in self_attr_stores(fn.node))]
+            if not upd:
+                bad += 1
+                r.violation(inc_, inc_.node, "%s.increment (resolved for %s) never advances self.n_samples: later increments weight the old mean and covariances by the "
+                            "initial sample count, so the model drifts from the batch model" % (inc_.cls.name, k_.name))
+        need(bad > 0, "C11.R2: mean / count updates not found")
+        return
     need(len(mean) >= 1 and len(cnt) >= 1, "C11.R2: mean / count updates not found")
     for ms_, mv_ in mean:
         r.check(not g.reaches(ms_, st), f, ms_, "the mean is reassigned before the precision update has read the old mean: the covariance update would be centred on the wrong mean")
@@ -147,6 +164,10 @@ def rule_r3(p, res):
     r = res.rule("C11.R3", "per-block update: data and mean selected alike and as in the batch routine; returned covariance stored")
     pairs = [("_create_dense_precision", "_increment_dense_precision"), ("_create_sparse_precision", "_increment_sparse_precision"),
              ("_create_dense_diagonal_precision", "_increment_dense_diagonal_precision"), ("_create_sparse_diagonal_precision", "_increment_sparse_diagonal_precision")]
+    # what the batch routine leaves behind for the first increment is the covariance of each block (not its inverse)
+    from .c12 import stored_state_is_covariance
+    nst = stored_state_is_covariance(p, r, [cn for cn, _ in pairs])
+    need(nst >= 4, "C11.R3: the create routines no longer store their per-block covariances in a way I recognise")
     for cn, iname in pairs:
         cf, jf = p.func(GM + cn), p.func(GM + iname)
         r.instance(jf)
@@ -255,4 +276,11 @@ WITNESSES = [
     Witness("C11.W9", "menpo/math/decomposition.py", "ipca", "if m_a is not None and (not np.all(m_a == 0)):", "if m_a is not None and np.all(m_a != 0):", rule="C11.R4", construct="ipca", note="seeded change C11-A"),
     Witness("C11.W10", "menpo/model/gmrf.py", "_increment_dense_precision", "covariances[e], n, bias=bias)", "covariances[e], n)", rule="C11.R3", construct="_increment_dense_precision", note="seeded change C11-B"),
     Witness("C11.T1", "menpo/model/pca.py", "PCAVectorModel.increment", "self._mean = m_vector\n    self._components = e_vectors\n    self._eigenvalues = e_values", "self._components = e_vectors\n    self._eigenvalues = e_values\n    self._mean = m_vector", kind="T"),
+]
+
+WITNESSES += [
+    Witness("C11.W11", "menpo/model/gmrf.py", "GMRFVectorModel._increment", "\n    self.n_samples += data.shape[0]", "", rule="C11.R2", construct="increment", note="seeded change R3-C11-B (count no longer advanced for any class)"),
+    Witness("C11.W12", "menpo/model/gmrf.py", "_create_dense_diagonal_precision",
+            "if return_covariances:\n            all_covariances[v] = covmat\n        covmat = _covariance_matrix_inverse(covmat, n_components)", "covmat = _covariance_matrix_inverse(covmat, n_components)\n        if return_covariances:\n            all_covariances[v] = covmat",
+            rule="C11.R3", construct="_create_dense_diagonal_precision", note="seeded change R3-C11-C"),
 ]
